@@ -15,6 +15,7 @@ pub mod c15;
 pub mod c16;
 pub mod c17;
 pub mod c18;
+pub mod c19;
 pub mod c20;
 
 use crate::engine::Ctx;
@@ -46,5 +47,6 @@ pub const PROPS: &[PropDef] = &[
     PropDef { id: "C16", level: "fault_enumeration", run: c16::run, shards: 1, isolate: false },
     PropDef { id: "C17", level: "exploration", run: c17::run, shards: 12, isolate: false },
     PropDef { id: "C18", level: "exploration", run: c18::run, shards: 12, isolate: false },
+    PropDef { id: "C19", level: "exploration", run: c19::run, shards: 8, isolate: false },
     PropDef { id: "C20", level: "exploration", run: c20::run, shards: 8, isolate: false },
 ];
